@@ -185,27 +185,37 @@ pub fn is_generated_id_val(val: &str) -> bool {
     V_TRACE.contains(&val) || V_SPAN.contains(&val) || (val.len() <= 4 && val.parse::<i8>().is_ok())
 }
 
-/// The names of the keyed-lookup views `St::record` takes of every recorded event (see `views_of`).
-pub const VIEW_GENERIC: &str = "Props::get on the event's props";
-
-fn views_of<P: Props>(props: &P) -> Vec<(&'static str, Vec<Option<String>>)> {
-    use emit::props::ErasedProps;
-    fn all(get: impl Fn(&'static str) -> Option<String>) -> Vec<Option<String>> {
-        KEYS.iter().map(|k| get(k)).collect()
+/// The keys a recorded event is probed for by keyed lookup: the six well-known keys whose outcome the property
+/// decides or mentions, plus every other key of `KEYS` the event enumerates (a key the event does not enumerate is
+/// not probed).
+pub fn probe_keys(enumerated: &[(String, String)]) -> Vec<&'static str> {
+    let mut keys = vec!["span_name", "evt_kind", "lvl", "err", "trace_id", "span_id"];
+    for k in KEYS {
+        if !keys.contains(&k) && enumerated.iter().any(|(ek, _)| ek == k) {
+            keys.push(k);
+        }
     }
+    keys
+}
+
+type Views = Vec<(&'static str, Vec<Option<String>>)>;
+
+/// Keyed-lookup views of an event's props: generic, erased, through an `And` chain, through `pull`.
+fn views_of<P: Props>(props: &P, keys: &[&'static str]) -> Views {
+    use emit::props::ErasedProps;
+    let all = |get: &dyn Fn(&'static str) -> Option<String>| -> Vec<Option<String>> { keys.iter().map(|k| get(k)).collect() };
     let erased: &dyn ErasedProps = props;
     vec![
-        (VIEW_GENERIC, all(|k| props.get(k).map(|v| v.to_string()))),
-        ("get through &dyn ErasedProps", all(|k| erased.get(k).map(|v| v.to_string()))),
-        ("get on props.and_props(Empty)", all(|k| props.and_props(emit::Empty).get(k).map(|v| v.to_string()))),
-        ("get on Empty.and_props(props)", all(|k| emit::Empty.and_props(props).get(k).map(|v| v.to_string()))),
-        ("pull::<Value>", all(|k| props.pull::<emit::Value, _>(k).map(|v| v.to_string()))),
+        ("Props::get on the event's props", all(&|k| props.get(k).map(|v| v.to_string()))),
+        ("get through &dyn ErasedProps", all(&|k| erased.get(k).map(|v| v.to_string()))),
+        ("get on props.and_props(Empty)", all(&|k| props.and_props(emit::Empty).get(k).map(|v| v.to_string()))),
+        ("pull::<Value>", all(&|k| props.pull::<emit::Value, _>(k).map(|v| v.to_string()))),
     ]
 }
 
 /// Keyed-lookup views of a bare `Span` (what a custom `Completion` is handed).
-pub fn span_views<P: Props>(span: &emit::span::Span<P>) -> Vec<(&'static str, Vec<Option<String>>)> {
-    let all = |get: &dyn Fn(&'static str) -> Option<String>| -> Vec<Option<String>> { KEYS.iter().map(|k| get(k)).collect() };
+pub fn span_views<P: Props>(span: &emit::span::Span<P>, keys: &[&'static str]) -> Views {
+    let all = |get: &dyn Fn(&'static str) -> Option<String>| -> Vec<Option<String>> { keys.iter().map(|k| get(k)).collect() };
     let erased = span.erase();
     vec![
         ("Props::get on the Span", all(&|k| span.get(k).map(|v| v.to_string()))),
@@ -281,7 +291,9 @@ pub struct Rec {
     pub cur_span: Option<u64>,
     pub panicking: bool,
     pub phase: u32,
-    /// keyed lookups: (view name, result rendered with Display for every key of `KEYS`, in that order)
+    /// the keys probed by keyed lookup (`probe_keys`)
+    pub probed: Vec<&'static str>,
+    /// keyed lookups: (view name, result rendered with Display for every key of `probed`, in that order)
     pub views: Vec<(&'static str, Vec<Option<String>>)>,
     /// `pull::<Str>("span_name")`
     pub name_pulled: Option<String>,
@@ -299,13 +311,16 @@ impl Rec {
 
     /// keyed lookup (generic `Props::get`) of one of `KEYS`
     pub fn keyed(&self, key: &str) -> Option<&str> {
-        let i = KEYS.iter().position(|k| *k == key)?;
+        let i = self.probed.iter().position(|k| *k == key)?;
         self.views.first().and_then(|(_, v)| v[i].as_deref())
     }
 
     /// Every keyed view of `key` must give `want`; Err((view, got)) for the first one that does not.
     pub fn all_views_give(&self, key: &str, want: Option<&str>) -> Result<(), (&'static str, Option<String>)> {
-        let i = KEYS.iter().position(|k| *k == key).expect("probe key");
+        let Some(i) = self.probed.iter().position(|k| *k == key) else {
+            // not probed = the event does not enumerate it
+            return if want.is_none() { Ok(()) } else { Err(("enumeration", None)) };
+        };
         for (view, vals) in &self.views {
             if vals[i].as_deref() != want {
                 return Err((view, vals[i].clone()));
@@ -423,6 +438,7 @@ impl St {
             None => (false, ns_of(e.as_point()), ns_of(e.as_point())),
         });
         let cur = emit::span::SpanCtxt::current(ctxt());
+        let probed = probe_keys(&props);
         let rec = Rec {
             recorder,
             via_emitter,
@@ -432,17 +448,18 @@ impl St {
             lvl: evt.props().pull::<emit::Level, _>("lvl"),
             lvl_present: evt.props().get("lvl").is_some(),
             kind_is_span: evt.props().pull::<emit::Kind, _>("evt_kind") == Some(emit::Kind::Span),
+            views: {
+                let mut views = views_of(evt.props(), &probed);
+                let erased = evt.erase();
+                views.push(("get on Event::erase().props()", probed.iter().map(|k| erased.props().get(*k).map(|v| v.to_string())).collect()));
+                views
+            },
+            probed,
             props,
             cur_trace: cur.trace_id().map(|t| t.to_u128()),
             cur_span: cur.span_id().map(|s| s.to_u64()),
             panicking: std::thread::panicking(),
             phase: self.phase.get(),
-            views: {
-                let mut views = views_of(evt.props());
-                let erased = evt.erase();
-                views.push(("get on Event::erase().props()", KEYS.iter().map(|k| erased.props().get(*k).map(|v| v.to_string())).collect()));
-                views
-            },
             name_pulled: evt.props().pull::<emit::Str, _>("span_name").map(|s| s.to_string()),
             span_filter_matches: emit::kind::is_span_filter().matches(evt),
             metric_filter_matches: emit::kind::is_metric_filter().matches(evt),
@@ -458,9 +475,10 @@ impl St {
         }
     }
 
-    /// add further keyed views to the record that was just taken
-    pub fn add_views(&self, more: Vec<(&'static str, Vec<Option<String>>)>) {
+    /// add the keyed views of the bare span to the record that was just taken of its event
+    pub fn add_span_views<P: Props>(&self, span: &emit::span::Span<P>) {
         if let Some(r) = self.recs.borrow_mut().last_mut() {
+            let more = span_views(span, &r.probed);
             r.views.extend(more);
         }
     }
